@@ -609,6 +609,22 @@ public:
                " should be part of some WTO component");
   }
 
+  // Return true if the analysis of some head of the WTO components
+  // that contain node is still in progress (i.e., it is on the call
+  // stack).
+  bool nested_wto_head_in_call_stack(callgraph_node_t node) const {
+    if (auto nesting_opt = get_all_wto_nested_heads(node)) {
+      for (auto const &head : *nesting_opt) {
+        if (find_call_stack(head)) {
+          return true;
+        }
+      }
+      return false;
+    }
+    CRAB_ERROR(node.get_cfg().get_func_decl().get_func_name(),
+               " should be part of some WTO component");
+  }
+
   void
   apply_fn_to_nested_wto_component(callgraph_node_t root,
                                    std::function<void(callgraph_node_t)> fn) {
@@ -1550,10 +1566,14 @@ private:
 		 << "=====================\n";);
       }
 
-      if (callee_analysis && !m_ctx.included_nested_wto_component(callee_cg_node)) {
+      if (callee_analysis && !m_ctx.nested_wto_head_in_call_stack(callee_cg_node)) {
 	/***
-	 *** We delay running the checker until the node does not
-	 *** belong to any nested WTO component.
+	 *** We delay running the checker while the analysis of the
+	 *** head of a WTO component that contains the node is in
+	 *** progress: the head will run the checker on its whole
+	 *** component when it is done. If no such head is being
+	 *** analyzed (the node can be called directly from outside
+	 *** the component) nobody else will do it.
 	 ***/
       
 	// 6. Check assertions within the whole WTO component.
